@@ -817,3 +817,20 @@ func Build(t *Tree, root interface{}, pkg *reg.Pkg) error {
 	}
 	return nil
 }
+
+// KeyFromStep is the exported form of keyFromStep: a key step "=<canon>[KSep<canon>...]" to a
+// Go map key of type kt.
+func KeyFromStep(step string, kt reflect.Type, pkg *reg.Pkg) (reflect.Value, error) {
+	return keyFromStep(step, kt, pkg)
+}
+
+// KeyStep is the exported form of keyStep.
+func KeyStep(k reflect.Value, pkg *reg.Pkg) string { return keyStep(k, pkg) }
+
+// FieldInfoByStep returns the field value and its Go field name for an abstract step.
+func FieldInfoByStep(v reflect.Value, step string) (reflect.Value, reflect.StructField, bool) {
+	return fieldByStep(v, step)
+}
+
+// IsOrderedMapPtr reports whether t is a pointer to a generated ordered-map struct.
+func IsOrderedMapPtr(t reflect.Type) bool { return isOrderedMapPtr(t) }
